@@ -93,11 +93,23 @@ def run(tier, seed):
         exh = 12
     eps, suc, tol = 1e-4, 1 - 1e-4, 1e-6
     # ---- real family, Wx and Wz
-    for d, reps in plan:
+    # threshold-adjacent members (constructed by bisection, never reached by sampling): an inner conjugate root pair of
+    # 1 - F F~ with imaginary part anywhere between 1e-8 and 1e-2
+    nc_plan = []
+    for d in ((5, 6, 7, 8, 10, 12) if tier == "quick" else list(range(5, 13)) * 4):
+        nc = P.near_collision_cheb(rng, d)
+        if nc is None:
+            ctx.count("near-collision:not-constructed")
+        else:
+            nc_plan.append((d, nc[0]))
+    for d, reps in [(d, 1) for d, _ in nc_plan] + plan:
         for _ in range(reps):
             c, style = real_member(rng, d)
             p = P.mono_from_cheb(c)
-            if rng.random() < 0.45:
+            if nc_plan and nc_plan[0][0] == d and style != "consumed":
+                c, style = np.array(nc_plan.pop(0)[1]), "near-collision"
+                p = P.mono_from_cheb(c)
+            elif rng.random() < 0.45:
                 sp = sparse_member(rng, d)
                 if sp is not None:
                     p, style = sp, "sparse-monomial"
